@@ -109,10 +109,10 @@ Definition stat_value (k : akind) (parts : list Z) (edges lntab : list Qc) (xs :
 
 (* the transformation of the code's float score that is compared with the model score *)
 Definition code_tr (k : akind) (v : Q) : Q := match k with ACpa => (v * Qabs' v)%Q | _ => v end.
-(* the discriminants that commute with x |-> x |x| *)
-Definition disc_allowed (k : akind) (op : Models.disc_op) : bool :=
+(* the discriminants that commute with x |-> x |x| (S = number of samples of the attacked frame) *)
+Definition disc_allowed (S : nat) (k : akind) (op : Models.disc_op) : bool :=
   match k, op with
-  | ACpa, (Models.DNansum | Models.DAbssum) => false
+  | ACpa, (Models.DNansum | Models.DAbssum) => Nat.eqb S 1       (* a sum over ONE sample is that sample *)
   | _, _ => true
   end.
 
@@ -129,16 +129,17 @@ Record attack_obs := {
   ao_kind : akind;
   ao_disc : Models.disc_op;
   ao_word : nat;                (* index in cc_words *)
-  ao_T : list (list fval);      (* ATdpa: templates (classes x samples) and pooled_covariance_inv of the built attack object *)
-  ao_P : list (list fval);
+  ao_T : list (list fval);      (* ATdpa: class means of the building set (classes x samples) and the pseudo-inverse of its pooled *)
+  ao_P : list (list fval);      (*        covariance, computed by the harness from the building traces (numpy pinv), rounded dyadics *)
   ao_scores : list fval;        (* .scores[guess, word] at the guesses of wo_guesses *)
   ao_argmax : Z;                (* .scores.argmax(axis=0)[word] over ALL guesses *)
   ao_sep : bool                 (* the harness's own exact evaluation of "the model separates" (cross-checked here) *)
 }.
 
 Record camp_case := {
-  cc_S : nat;                   (* samples per trace *)
-  cc_gain : Z;
+  cc_S : nat;                   (* samples per trace (of the attacked frame) *)
+  cc_offset : Z;                (* baseline of the traces *)
+  cc_gain : Z;                  (* polarity and amplitude of the leakage: sample = offset + gain * model(state) + noise *)
   cc_amp : Z;                   (* noise amplitude a: every noise term is in [-a, a] *)
   cc_traces : list (list Z);
   cc_words : list word_obs;
@@ -237,7 +238,7 @@ Definition attack_ok (c : camp_case) (a : attack_obs) : bool :=
       | Some i =>
           let ms := model_scores c a w in
           word_shape_ok c w
-          && disc_allowed (ao_kind a) (ao_disc a)
+          && disc_allowed (cc_S c) (ao_kind a) (ao_disc a)
           && Nat.eqb (length (ao_scores a)) (length (wo_guesses w))
           && Bool.eqb (ao_sep a) (is_some (separated ms i))
           && match separated ms i with
@@ -262,14 +263,14 @@ Definition traces_ok (c : camp_case) : bool :=
 Definition camp_check (c : camp_case) : bool :=
   traces_ok c && forallb word_state_ok (cc_words c) && forallb (attack_ok c) (cc_attacks c).
 
-(* --- the shape of the simulated traces, checked on the data (correspondence): gain * leakage intermediate + noise in
-   [-a, a] at the leaking samples, noise elsewhere *)
+(* --- the shape of the simulated traces, checked on the data (correspondence): offset + gain * leakage intermediate + noise
+   in [-a, a] at the leaking samples, offset + noise elsewhere *)
 Definition zabs_le (z a : Z) : bool := (Z.abs z <=? a)%Z.
 Definition word_wiring_ok (c : camp_case) (w : word_obs) : bool :=
-  forallb (fun s => forallb2 (fun r h => zabs_le (nth s r 0%Z - cc_gain c * h) (cc_amp c)) (cc_traces c) (wo_state w)) (wo_leak w).
+  forallb (fun s => forallb2 (fun r h => zabs_le (nth s r 0%Z - cc_offset c - cc_gain c * h) (cc_amp c)) (cc_traces c) (wo_state w)) (wo_leak w).
 Definition noise_only_ok (c : camp_case) : bool :=
   let leaking := flat_map wo_leak (cc_words c) in
-  forallb (fun s => existsb (Nat.eqb s) leaking || forallb (fun r => zabs_le (nth s r 0%Z) (cc_amp c)) (cc_traces c))
+  forallb (fun s => existsb (Nat.eqb s) leaking || forallb (fun r => zabs_le (nth s r 0%Z - cc_offset c) (cc_amp c)) (cc_traces c))
           (seq 0 (cc_S c)).
 Definition camp_wiring (c : camp_case) : bool := forallb (word_wiring_ok c) (cc_words c) && noise_only_ok c.
 
